@@ -42,6 +42,7 @@ func init() {
 			{Name: "offset formula ignores viewportY", File: "kernel/device/tty/vt.go", Old: "uint((t.viewportY+(t.cursorY-1))*(t.viewportWidth*3) + ((t.cursorX - 1) * 3))", New: "uint((t.cursorY-1)*(t.viewportWidth*3) + ((t.cursorX - 1) * 3))", Expect: "C17.R3"},
 			{Name: "scroll moves the whole buffer", File: "kernel/device/tty/vt.go", Old: "\t\t\tfor offset := startOffset; offset < endOffset; offset++ {", New: "\t\t\tfor offset := startOffset / 2; offset < endOffset; offset++ {", Expect: "C17.R4"},
 			{Name: "blanking misses the last cell", File: "kernel/device/tty/vt.go", Old: "for offset := endOffset; offset < endOffset+stride; offset += 3 {", New: "for offset := endOffset; offset < endOffset+stride-3; offset += 3 {", Expect: "C17.R4"},
+			{Name: "last line blanked only while the terminal is active", File: "kernel/device/tty/vt.go", Old: "\t\t\tfor offset := endOffset; offset < endOffset+stride; offset += 3 {", New: "\t\t\tif t.state != StateActive {\n\t\t\t\treturn\n\t\t\t}\n\t\t\tfor offset := endOffset; offset < endOffset+stride; offset += 3 {", Expect: "C17.R4 scroll-paired"},
 			{Name: "viewport advance without offset refresh", File: "kernel/device/tty/vt.go", Old: "\n\tt.updateDataOffset()\n}\n\n// updateDataOffset", New: "\n\tif withCR {\n\t\tt.updateDataOffset()\n\t}\n}\n\n// updateDataOffset", Expect: "C17.R3"},
 		},
 	})
@@ -182,10 +183,11 @@ func runC17(c *Ctx) {
 	x.c17r1()
 	x.c17r2()
 	x.c17r3()
-	c.floor("C17.R4", 2)
-	mb, cb := x.scrollArmForms()
+	c.floor("C17.R4", 3)
+	mb, cb, pb := x.scrollArmForms()
 	c.check(mb == "", "C17.R4", "scroll-move "+c.K.fnName(x.lf), "the viewport's lines [viewportY, viewportY+viewportHeight-1) move up by exactly one line; the scrollback above them does not move", mb, c.K.pos(x.lf.Pos()))
 	c.check(cb == "", "C17.R4", "scroll-clear "+c.K.fnName(x.lf), "exactly the viewportWidth cells of the last viewport line are blanked with (' ', defaultFg, defaultBg)", cb, c.K.pos(x.lf.Pos()))
+	c.check(pb == "", "C17.R4", "scroll-paired "+c.K.fnName(x.lf), "the move and the blanking happen on exactly the same paths through lf (whatever the terminal's state)", pb, c.K.pos(x.lf.Pos()))
 }
 
 // writeBytes (C17.R1): VT.Write hands every byte of its argument, in order, to
@@ -1050,7 +1052,7 @@ func (x *vtx) c18r2() {
 		c.check(bad == "", "C18.R2", key, "Scroll(ScrollDirUp, 1) then Fill(1, cursorY, termWidth, 1, defaultFg, defaultBg) on every path of the active side", bad, gl.posOf(f.Edge.From))
 	}
 	// the buffer's own blanking of the new last line covers what the console's Fill covers (a whole row)
-	_, cb := x.scrollArmForms()
+	_, cb, _ := x.scrollArmForms()
 	c.check(cb == "", "C18.R2", "mirror-scroll-clear "+m.fnName(x.lf), "the buffer blanks the same viewportWidth cells of the last line that Fill(1, cursorY, termWidth, 1, ...) blanks on the console", cb, m.pos(x.lf.Pos()))
 	_ = strings.Join
 }
